@@ -4,6 +4,7 @@
 
   OBLIGATIONS: C11_step C11_closed_form C11_closed_form_matrix_power C11_zero_steps C11_inverse_flag C11_inverse_is_negated_field
     C11_hull_invariant C11_convention_independent_hull C11_limit_diagonal_partial
+    C11_expflow_inverse_state C11_svf_regrid_state
 
   Partial (DESIGN.md §5 C11): convergence to the matrix exponential as k grows is proved for
   diagonal generators only (`C11_limit_diagonal_partial`; the general matrix case and the
@@ -14,6 +15,7 @@ import Deepali.Proofs.FlowHull
 import Deepali.Proofs.AffPow
 import Mathlib.Analysis.SpecialFunctions.Complex.LogBounds
 import Deepali.Proofs.Examples
+import Deepali.Model.ExpFlowState
 
 set_option linter.unusedSectionVars false
 
@@ -136,6 +138,51 @@ theorem C11_limit_diagonal_partial (a : ℝ) :
   have := h.comp hsub
   refine this.congr (fun k => ?_)
   simp [Function.comp]
+
+/-! ### the state of the exponential (`scale`, `steps`, `align_corners`) through the module and transform layers
+  (Model/ExpFlowState.lean; the generated obligations `gen_expflow_*`, `gen_svf_*` of harness/gen/C11.lean.in tie these
+  definitions to the current text of `ExpFlow.inverse` / `.inv` / `.forward` and of
+  `StationaryVelocityFieldTransform.grid_` / `.inverse`). -/
+
+/-- `ExpFlow.inverse()` (and the property `.inv`): `steps` and `align_corners` are kept, `scale` is negated, twice is the
+    identity; applying the inverse module equals applying the module with `inverse=True`, which equals `expv` called with
+    the module's `scale`, `steps`, `align_corners` and ITS `inverse=True` (`C11_inverse_flag`), i.e. "exp(−v) is computed
+    by negating the scale" holds at the module layer with the convention the module was given. -/
+theorem C11_expflow_inverse_state (cfg : ExpFlowCfg K) (n : Fin d → Nat) (v : VField d K) :
+    cfg.inverse.steps = cfg.steps ∧ cfg.inverse.alignCorners = cfg.alignCorners ∧ cfg.inverse.scale = -cfg.scale
+    ∧ cfg.inverse.inverse = cfg
+    ∧ cfg.inverse.apply n v false = cfg.apply n v true
+    ∧ cfg.apply n v true = expv cfg.alignCorners .border n cfg.scale true cfg.steps v
+    ∧ cfg.apply n v false = expv cfg.alignCorners .border n cfg.scale false cfg.steps v := by
+  refine ⟨rfl, rfl, ?_, ?_, rfl, ?_, rfl⟩
+  · simp [ExpFlowCfg.inverse]
+  · cases cfg; simp [ExpFlowCfg.inverse]
+  · rw [C11_inverse_flag]; simp [ExpFlowCfg.apply, ExpFlowCfg.expvArgs]
+
+/-- `StationaryVelocityFieldTransform.grid_` (re-gridding onto a grid whose `align_corners()` is `b`): `scale` and `steps`
+    are kept and `align_corners` becomes `b`; re-gridding commutes with `inverse()`; re-gridding onto the same convention
+    is the identity and re-gridding is idempotent; and the exponential an inverted, re-gridded transform evaluates
+    (`update`: `self.exp(v)`) is `expv` with the NEGATED scale, the SAME steps and the NEW grid's convention — in either
+    order of the two operations. -/
+theorem C11_svf_regrid_state (cfg : ExpFlowCfg K) (b : Bool) (n : Fin d → Nat) (v : VField d K) :
+    (svfRegrid cfg b).scale = cfg.scale ∧ (svfRegrid cfg b).steps = cfg.steps ∧ (svfRegrid cfg b).alignCorners = b
+    ∧ svfRegrid (svfInverse cfg) b = svfInverse (svfRegrid cfg b)
+    ∧ svfRegrid cfg cfg.alignCorners = cfg
+    ∧ svfRegrid (svfRegrid cfg b) b = svfRegrid cfg b
+    ∧ (svfRegrid cfg b).apply n v false = expv b .border n cfg.scale false cfg.steps v
+    ∧ (svfRegrid (svfInverse cfg) b).apply n v false = expv b .border n (-cfg.scale) false cfg.steps v
+    ∧ (svfInverse (svfRegrid cfg b)).apply n v false = expv b .border n (-cfg.scale) false cfg.steps v := by
+  obtain ⟨s, k, a⟩ := cfg
+  cases a <;> cases b <;>
+    simp [svfRegrid, svfInverse, ExpFlowCfg.inverse, ExpFlowCfg.withAlignCorners, ExpFlowCfg.apply, ExpFlowCfg.expvArgs]
+
+/-! non-vacuity: `scale = 1/2`, `steps = 5`, `align_corners = True`, inverted and re-gridded onto an `align_corners = False`
+    grid — the flag really changes, the scale really flips, the steps stay. -/
+example : svfRegrid (svfInverse (⟨1 / 2, 5, true⟩ : ExpFlowCfg ℚ)) false = ⟨-(1 / 2), 5, false⟩
+    ∧ svfRegrid (⟨1 / 2, 5, true⟩ : ExpFlowCfg ℚ) true = ⟨1 / 2, 5, true⟩
+    ∧ (⟨1 / 2, 5, true⟩ : ExpFlowCfg ℚ).inverse ≠ ⟨1 / 2, 5, true⟩ := by
+  refine ⟨?_, ?_, ?_⟩ <;> simp [svfRegrid, svfInverse, ExpFlowCfg.inverse, ExpFlowCfg.withAlignCorners]
+  norm_num
 
 /-! ### non-vacuity: a contracting generator on a 5×4 grid satisfies the domination hypothesis -/
 
